@@ -33,12 +33,25 @@ RULE = ('value case = one described serializable value (primitives incl. special
         'default arguments), lambdas and locally defined functions whose positional and '
         'keyword-only defaults are values of every serializable kind (nested, as roots and as '
         'leaves of containers and objects), typed root '
-        'containers, value specs, fields, schemas, DNASpecs and DNAs) sent through six '
+        'containers (also with members that have the default value of a constant or dynamic '
+        'field), value specs, fields, schemas, DNASpecs and DNAs; values with a user-defined '
+        'equality - pg.Object subclasses overriding sym_eq (equal to anything, to the wrapped '
+        'value as in the pg.eq doc-string, to nothing; complete and partial) and opaque '
+        'picklable objects with a hostile __eq__ (always, never, by one attribute, no truth '
+        'value, raising) - in untyped and typed schema-backed fields with defaults, dict, '
+        'tuple and list members; pg.KeyPath values over hostile keys (negative ints, '
+        'int-looking strings, the empty string, dots/brackets) in pg.KeyPath-typed slots '
+        '(field, list element, dict value) and untyped ones, and pg.dna_spec of search spaces '
+        'whose hyper values sit under such keys; members inferred from an ancestor '
+        '(ValueFromParentChain) in objects and dicts) sent through six '
         'codecs (to_json/from_json, to_json_str/from_json_str, a file of the standard and of '
         'the in-memory file system written by pg.save/Symbolic.save (new path or overwrite) or '
-        'as a record of open_jsonl/open_sequence (new file or append), pickle, copy.deepcopy) '
+        'as a record of open_jsonl/open_sequence (new file or append), pickle, copy.deepcopy; '
+        'the JSON codecs with and without hide_default_values) '
         'with equality (NaN-aware; functions carried as code: same code, same defaults, same '
-        'result of a call that relies on the defaults), type, pg.hash, tree_ok, schema_ok and a '
+        'result of a call that relies on the defaults; values with a user-defined equality: '
+        'member by member / by type and attributes against the value built from the same '
+        'description, never by their own ==), type, pg.hash, tree_ok, schema_ok and a '
         'differential invalid-write monitor, and the read path repeated: the same in-memory '
         'JSON value (to_json output or the json.loads of its text) loaded two or three times '
         'by pg.from_json and Dict/List/Object.from_json, every load equal to the original; non-trivial = the value has at least 2 description nodes, '
@@ -47,9 +60,12 @@ RULE = ('value case = one described serializable value (primitives incl. special
         'stay open over later operations (pg.io.open read in pieces by read(n)/read()/'
         'readline, open_jsonl/open_sequence readers iterated record by record, several per '
         'path, closed late or never, writes directed at paths with an unclosed reader), '
-        'over 6-9 paths on the standard file '
-        'system (fresh temp dir) and then on the in-memory one (incl. names that collide '
-        'with the /mem/ prefix), checked after every operation against a path -> last '
+        'over 6-15 paths on the standard file '
+        'system (fresh temp dir, which is the working directory: some paths are written by a '
+        'relative spelling - bare file name, ./name, dir/name - and read back by the absolute '
+        'one) and then on the in-memory one (incl. names that collide '
+        'with the /mem/ prefix), text, binary and JSON writes now and then overwriting a path '
+        'that holds another kind of content, checked after every operation against a path -> last '
         'value model through path_exists, readfile, pg.load, listdir/isdir and sequence '
         'iteration (a path with an open reader is read back immediately after a write, '
         'otherwise only now and then), and every read of an open handle against the content '
@@ -85,7 +101,22 @@ ASSUMPTIONS = [
     'invalid-write monitor therefore uses typed roots only with the JSON codecs and deepcopy',
     'the string form is layered over the object form: a value that already fails in object '
     'form is not reported again for the string form',
-    'mechanism = codec + class of the greedily minimised value description',
+    'mechanism = codec (+hide_default_values when the same round trip passes without the '
+    'option) + class of the greedily minimised value description',
+    'values with a user-defined equality: pg.eq / == / pg.hash of such a value are whatever '
+    'the user defined, so the restored value is compared member by member (pg.Object) or by '
+    'type and attributes (opaque objects) and the whole-value pg.eq is not judged; a '
+    'description whose constructor does not keep the described members (pg.List drops a '
+    'member that equals MISSING_VALUE, a plain list whose first member equals the tuple '
+    'marker is re-read as a tuple) is not a case of this property (construction: C01/C02); '
+    'hide_default_values is not combined with such values (which members "have the default '
+    'value" is a statement of their own equality)',
+    'a pg.KeyPath is written as its path string (registered type conversion) and converted '
+    'back by a pg.KeyPath-typed slot only: in an untyped slot a pg.KeyPath or the equal '
+    'path string is accepted; keys with unbalanced brackets are not generated (C10)',
+    'inferential members are generated only where an ancestor other than the value itself '
+    'has a member of that name (an unresolvable or self-referring inference is not a '
+    'serializable value)',
     'open handles: only readers are left open (the content of a path whose writer is not '
     'closed is not "saved" yet: not generated); a reader is judged from its own position '
     'against the content at the time it was opened until the path is written or removed '
@@ -95,6 +126,7 @@ ASSUMPTIONS = [
 
 CODECS = ['json', 'json-str', 'file-std', 'file-mem', 'pickle', 'deepcopy']
 FILE_CODECS = ('file-std', 'file-mem')
+HIDE_DEFAULTS = 16       # variant bit: to_json(hide_default_values=True)
 SCHEMA_FAMILIES = ('container', 'object', 'typed-root', 'usereq', 'keypath')
 
 
@@ -122,14 +154,17 @@ def run_codec(codec, v, d, variant=0):
     if vs is not None:
       kw['value_spec'] = vs
   sym = isinstance(v, pg.Symbolic)
+  # bit 4: members that have the default value of their field are left out of
+  # the JSON (the schema puts them back on load)
+  opts = {'hide_default_values': True} if variant & HIDE_DEFAULTS else {}
   if codec == 'json':
-    j = v.to_json() if (sym and variant & 1) else pg.to_json(v)
+    j = v.to_json(**opts) if (sym and variant & 1) else pg.to_json(v, **opts)
     return pg.from_json(j, **kw)
   if codec == 'json-str':
     if sym and variant & 1:
-      s = v.to_json_str(json_indent=2 if variant & 2 else None)
+      s = v.to_json_str(json_indent=2 if variant & 2 else None, **opts)
     else:
-      s = pg.to_json_str(v, json_indent=2 if variant & 2 else None)
+      s = pg.to_json_str(v, json_indent=2 if variant & 2 else None, **opts)
     return pg.from_json_str(s, **kw)
   if codec in FILE_CODECS:
     return run_file(codec, v, kw, variant)
@@ -648,7 +683,10 @@ def value_case(ctx, i):
   family, d = S.gen_value(rng)
   c['family:' + family] += 1
   ctx.seen('value_kinds', S.kind(d))
-  variant = rng.randint(0, 15)
+  variant = rng.randint(0, 31)
+  if S.has_user_eq(d):
+    # which members "have the default value" is a statement of their own equality
+    variant &= ~HIDE_DEFAULTS
   wseed = rng.randint(0, 10**9)
   failed_json = failed_str = False
   summary = {}
@@ -667,11 +705,25 @@ def value_case(ctx, i):
       failed_json = True
     if problems and codec == 'json-str':
       failed_str = True
+    if codec in ('json', 'json-str') and variant & HIDE_DEFAULTS:
+      c['roundtrips_hiding_default_values'] += 1
     for clause, detail in problems:
-      def observed(cand, clause=clause, codec=codec):
+      var, label = variant, codec
+      if codec in ('json', 'json-str') and variant & HIDE_DEFAULTS:
+        # does it take the option? (the same round trip without it)
+        try:
+          plain = [cl for cl, _ in check(codec, d, family, None, variant & ~HIDE_DEFAULTS, wseed)
+                   if group(cl) == group(clause)]
+        except Exception:  # pylint: disable=broad-except
+          plain = []
+        if plain:
+          var = variant & ~HIDE_DEFAULTS
+        else:
+          label = codec + '+hide_default_values'
+      def observed(cand, clause=clause, codec=codec, var=var):
         """Clauses of the same group that `cand` shows with this codec."""
         try:
-          return [cl for cl, _ in check(codec, cand, family_of(cand, family), None, variant,
+          return [cl for cl, _ in check(codec, cand, family_of(cand, family), None, var,
                                         wseed) if group(cl) == group(clause)]
         except Exception:  # pylint: disable=broad-except
           return []
@@ -681,10 +733,10 @@ def value_case(ctx, i):
       # clause reported is the one the minimal value shows by itself
       clause = (observed(small) or [clause])[0]
       ctx.violation(
-          clause, f'{codec}/{S.kind(small)}',
+          clause, f'{label}/{S.kind(small)}',
           printable(f'{detail}\nvalue: {S.show(d):.600}\nminimal: {S.show(small):.300}'),
           {'family': family, 'desc': d, 'minimal': small, 'codec': codec,
-           'variant': variant})
+           'variant': var})
       summary[f'{clause}:{codec}'] = S.kind(small)
   if not failed_json:
     ctx.label = 'json/reload'
@@ -752,10 +804,15 @@ def history_case(ctx, i):
   summary = {}
   for fsname in ('std', 'mem'):
     root = tempfile.mkdtemp(prefix='pgverif-c05-') if fsname == 'std' else None
-    world = P.World(fsname, root, tag, values_same)
+    cwd = os.getcwd()
+    if root is not None:
+      # some paths of the history are spelled relative to the working directory
+      os.chdir(root)
+    world = P.World(fsname, root, tag, values_same, relative=root is not None)
     try:
       ops, stats = run_history(ctx, world, rng, ctx.params['steps'])
     finally:
+      os.chdir(cwd)
       world.cleanup()
       if root is not None:
         shutil.rmtree(root, ignore_errors=True)
@@ -845,12 +902,16 @@ def gen_op(world, rng, c):
     d = storable(rng, c, size)
     return P.save_json(path, d, indent=rng.choice([None, None, 2]),
                        method=rng.random() < 0.4)
+  # A path holds whatever was written last: now and then text, binary and JSON
+  # writes go to a path that the other kinds of write use.
+  anyfile = world.json_paths + world.txt_paths + world.bin_paths
+  cross = lambda paths: anyfile if target is None and rng.random() < 0.25 else paths
   if r < 0.47:
-    return P.save_txt(pick(world.txt_paths), P.text(rng))
+    return P.save_txt(pick(cross(world.txt_paths)), P.text(rng))
   if r < 0.55:
-    return P.writefile(pick(world.txt_paths), P.text(rng))
+    return P.writefile(pick(cross(world.txt_paths)), P.text(rng))
   if r < 0.6:
-    return P.writefile_bytes(pick(world.bin_paths), P.blob(rng))
+    return P.writefile_bytes(pick(cross(world.bin_paths)), P.blob(rng))
   if r < 0.67:
     existing = [p for p in world.all_file_paths() if p in world.files or p in world.seq_files()]
     if existing:
